@@ -71,13 +71,19 @@ CLAIMED = {
         design="DESIGN.md §3 C02/C03", technique="Lean 4 proof + regenerated thresholds + model/code correspondence + reference framer oracle"),
     "C09": dict(
         engine="daemon",
-        text="Lean 4 proof: accounting invariant (connections = |active|+|suspended|+|cleanup| <= limit; per-address counter = number of "
-             "connections from that address incl. the new list <= per-IP limit) for every history incl. every failure exit of admission; "
-             "capacity restored; at stop every socket closed exactly once and start/close notifications paired; response refcount = "
-             "multiset of holders, free callback exactly once exactly at zero, no use after. Tie: bounded-exhaustive + random histories "
-             "against the real daemon (white-box list lengths and per-IP tree), allocation-failure enumeration, LeakSanitizer, log oracle.",
-        note="HTTP exchange abstracted to scripted behaviours; accept4 wrapper, thread-per-connection and thread-creation failure are in the "
-             "model/proofs but not in the correspondence; internal-thread modes oracle-only (thorough); tsearch abstracted to a map.",
+        text="Lean 4 proof (16 theorems): accounting invariant (connections = |active|+|suspended|+|cleanup| <= limit; per-address "
+             "counter = number of connections from that address incl. the new list <= per-IP limit) for every history incl. every "
+             "failure exit of admission and failing accept4; capacity restored; at stop every socket closed exactly once and "
+             "start/close notifications paired; response refcount = multiset of holders over EVERY acquisition/drop site (final "
+             "replies, interim 102 replies, upgrade after 102, daemon error replies, queue from outside while suspended, shared "
+             "objects, aborted connections): interim_replies_balanced, stop_releases_every_response, free callback exactly once "
+             "exactly at zero, no use after. Tie: bounded-exhaustive + random histories against the real daemon (white-box list "
+             "lengths and per-IP tree as a sorted map), acquisition/drop-site enumeration, a real listen socket (IPv4 + dual stack) "
+             "with interposed accept4 failures compared line by line, pthread_create failures, thread-per-connection and pool "
+             "histories (oracle + thread count), allocation-failure enumeration, LeakSanitizer, log oracle.",
+        note="HTTP exchange abstracted to scripted behaviours; thread-per-connection / pools / thread-creation failure run with real "
+             "threads against the oracle, not compared with the model; at_limit gating of the listen fd not exercised; tsearch "
+             "abstracted to a map.",
         design="DESIGN.md §3 C09", technique="Lean 4 proof (invariants + conservation laws over step/run) + scripted differential run + oracle"),
     "C10": dict(
         engine="tmo",
@@ -122,38 +128,58 @@ CLAIMED = {
              "regenerated constants; real daemon whose handler calls check3 / check_digest3 / the four legacy wrappers under a virtual "
              "clock with nonces issued by the real code; random credentials x 3 algorithms x qop x username notation x bind options x "
              "~20 labelled mutations x nc window edges; independent RFC oracle with hashlib.",
-        note="malloc failure and pool exhaustion not modelled; the request's GET argument list is a model input (recomputed by driver and "
+        note="Allocation failure modelled all-or-nothing per check (alloc_failure_* theorems, --wrap=malloc runs); pool exhaustion "
+             "in MHD_get_rq_dauth_params_ not modelled; the request's GET argument list is a model input (recomputed by driver and "
              "oracle, printed by the harness); SHA-512/256 composition carries C16's size_t hypothesis; no unforgeability claim.",
         design="DESIGN.md §3 C12", technique="Lean 4 proof (composition of C13/C14/C16 models) + regenerated constants + real-daemon correspondence + RFC oracle"),
     "C13": dict(
         engine="nonce",
-        text="Lean 4 proof over a model of digestauth.c's nonce-nc map, any table size, any sequence of registrations and presentations "
-             "(= all interleavings under nnc_lock): (nc,nmask) refines a set of used counts; each (nonce,count) accepted at most once per "
-             "registration; acceptance exactly 'new, non-zero, below UINT32_MAX-64, <= 64 behind the highest' (jumps 63/64/65); never-"
-             "issued or evicted nonces never accepted; expired / above max_nc => stale; slot-reuse policy as coded; no out-of-buffer read. "
-             "Tie: regenerated constants, bounded-exhaustive (584k seq quick) + random correspondence on check_nonce_nc, "
-             "calculate_add_nonce, get_nonce_timestamp, fast_simple_hash, MHD_digest_auth_check3; independent set-based oracle.",
-        note="Nonce derivation opaque (C12); presented nonces NUL-free (guaranteed by the request parser; witness theorem included); the "
-             "locking itself is C18.",
+        text="Lean 4 proof (48 theorems) over a model of digestauth.c's nonce-nc map, any table size, any sequence of registrations "
+             "and presentations: (nc,nmask) refines a set of used counts; each (nonce,count) accepted at most once per registration; "
+             "acceptance exactly 'new, non-zero, below UINT32_MAX-64, <= 64 behind the highest' (jumps 63/64/65); never-issued or "
+             "evicted nonces never accepted; expired / above max_nc => stale; slot-reuse policy as coded; no out-of-buffer read. "
+             "Nonce GENERATION is in the model at byte level (calculate_nonce on C16's hash specification, "
+             "calculate_add_nonce(_with_retry)): generated nonces are well-formed, pass the verifier's format checks until they "
+             "expire, are run steps (so all run theorems cover nonces the daemon really makes), the binding re-check accepts equal "
+             "bound inputs and rejects different ones for every MHD_DAUTH_BIND_* option under the explicit hypothesis that the two "
+             "concrete hash inputs do not collide; nonce length is tied to the algorithm. 'All interleavings' is a checked fact: "
+             "nonce_table_accessed_only_under_lock over the regenerated lock table (every access to struct MHD_NonceNc holds "
+             "nnc_lock; no callback, wait or second lock inside). Tie: regenerated constants, bounded-exhaustive (584k seq quick) + "
+             "random correspondence on check_nonce_nc, calculate_add_nonce, get_nonce_timestamp, fast_simple_hash, "
+             "MHD_digest_auth_check3, generated nonce bytes model vs code (28k per quick run); independent set-based oracle.",
+        note="Hash inequality for two concrete inputs is an explicit hypothesis (no cryptographic claim); presented nonces NUL-free "
+             "(guaranteed by the request parser; witness theorem included); mutual exclusion of pthread mutexes assumed (the locking "
+             "discipline itself is C18).",
         design="DESIGN.md §3 C13", technique="Lean 4 proof (refinement to a set) + model/code correspondence + reference oracle"),
     "C14": dict(
         engine="auth",
-        text="Lean 4 proof over a model of gen_auth.c / basicauth.c / the digestauth.c info API: parse(render) = meaning for every well-formed "
-             "Digest parameter list in every rendering (order, case, OWS, token/quoted-string, escapes, extension parameters, empty "
-             "elements); algorithm/qop/userhash invariant under quoting; info-API structures depend only on the meaning; Basic round trip, "
-             "canonical-base64-only, exact token68 extraction; no access beyond str[str_len]. Tie: regenerated if-chains/tables/enums + "
-             "1.3e5 (quick) case correspondence, bounded-exhaustive + random, RFC 7616/7617 reference oracle.",
+        text="Lean 4 proof (38 theorems) over a model of gen_auth.c / basicauth.c / the digestauth.c info API: parse(render) = "
+             "meaning for every well-formed Digest parameter list in every rendering (order, case, OWS, token/quoted-string, "
+             "escapes, extension parameters, empty elements); parse_agrees_reference: every byte string an RFC 7235/7616 "
+             "recursive-descent reference (written from the ABNF, returns the parse tree) accepts is parsed to the same values; "
+             "algorithm/qop/userhash invariant under quoting; single-byte corruptions inside values are rejected or change only that "
+             "parameter (corruption_local_quoted/_token, corruption_rejected_*; the re-bracketing class is a recorded finding / "
+             "witness); info-API structures depend only on the meaning, lie inside the one allocated block with exact sizes "
+             "(info_block_layout), user-name type classification total and exact (presence, not emptiness, decides); first matching "
+             "Authorization header wins; Basic round trip, canonical-base64-only, exact token68 extraction; no access beyond "
+             "str[str_len]. Tie: regenerated if-chains/tables/enums + 2.0e5 (quick) case correspondence, bounded-exhaustive + "
+             "random, header lists, layout with malloc_usable_size under ASan, real daemon with several Authorization headers, RFC "
+             "7616/7617 reference oracle.",
         note="Precondition: one readable byte behind the header value (the parser reads str[str_len]; it is the in-buffer NUL). Info-API "
              "theorem under Elem.infoWf (escaped nc <= 16 raw bytes, username* unescaped with complete pct-encoding).",
         design="DESIGN.md §3 C14", technique="Lean 4 proof + regenerated constants + model/code correspondence + RFC reference oracle"),
     "C16": dict(
         engine="hash",
-        text="For MD5, SHA-1 (both copies), SHA-256 and SHA-512/256: machine-checked proof that init -> any sequence of update calls (any "
-             "split, any alignment, any starting context) -> finish on the model returns the RFC 1321 / FIPS 180-4 digest of the "
-             "concatenated data, never leaves the context buffer, and leaves a re-usable context. The step tables, round constants, "
-             "shifts, IVs and sizes are re-extracted from the C source each run (instrumented execution of the real transform) and "
-             "proved equal to the standards' tables by decide over the whole tables. Tie: every length 0..300 one-shot/byte-by-byte, "
-             "all 2-way splits <= 140, 16 misalignments under UBSan, white-box counter wrap-arounds, hashlib triple comparison.",
+        text="For MD5, SHA-1 (both copies), SHA-256 and SHA-512/256: machine-checked proof (21 theorems) that init -> any sequence "
+             "of update calls (any split, any alignment, any starting context) -> finish on the model returns the RFC 1321 / FIPS "
+             "180-4 digest of the concatenated data, never leaves the context buffer, writes the full-width bit length "
+             "(finish_length_encoding_*) and leaves a re-usable context. The step tables, round constants, shifts, IVs and sizes are "
+             "re-extracted from the C source each run (instrumented execution of the real transform) and proved equal to the "
+             "standards' tables by decide over the whole tables. That the model's unbounded `length` is a faithful abstraction is a "
+             "checked fact: no_narrowing_in_control_flow over the clang-AST list of every 64-bit-to-narrower conversion in the ten "
+             "update/finish functions (each proved the identity on every value its operand can take). Tie: every length 0..300 "
+             "one-shot/byte-by-byte, all 2-way splits <= 140, 16 misalignments under UBSan, white-box counter wrap-arounds, single "
+             "update calls of 2^31 / 2^32 + d bytes read from a zero mapping, hashlib triple comparison.",
         note="Specifications and the model's step/sigma/rotate functions are hand-written (validated by published vectors and hashlib). "
              "That a misaligned pointer is never dereferenced as a word is established by the UBSan run, not by the theorems.",
         design="DESIGN.md §3 C16", technique="Lean 4 refinement proof + instrumented-execution extractor + triple differential (model, code, hashlib)"),
@@ -172,12 +198,19 @@ CLAIMED = {
         design="DESIGN.md §3 C17", technique="Lean 4 proof + correspondence + reference oracle"),
     "C18": dict(
         engine="locks",
-        text="PARTIAL by nature. Proved (decide +kernel over the whole clang-AST-regenerated lock table, lifted by lemmas): lock-order graph "
-             "acyclic => no wait cycle in an abstract thread/mutex model; no lock held while blocking; lockset discipline for shared "
-             "fields except two flags (kernel-checked witness that the full statement is false: F18b); writes under mutex; callbacks "
-             "unlocked; stop sequencing and stop state machines (termination, every connection notified once; thread-per-connection exit "
-             "path). Validated dynamically, not proved: TSan stress (client threads x select/poll/epoll x pool/thread-per-connection, "
-             "add_connection, cross-thread resume, shared responses, digest auth, stop under load with watchdog).",
+        text="PARTIAL by nature. Proved (24 theorems; decide +kernel over the whole clang-AST-regenerated lock table, lifted by "
+             "lemmas): lock-order graph acyclic => no wait cycle in an abstract thread/mutex model; no lock held while blocking; "
+             "lockset discipline for shared fields except two flags (kernel-checked witness that the full statement is false: F18b); "
+             "writes under mutex, with no exception at all for the per-IP tree and the nonce table (per_ip_and_nonce_under_mutex); "
+             "callbacks unlocked; stop sequencing and stop state machines (termination, every connection notified once; "
+             "thread-per-connection exit path); every loop that releases a mutex inside its body re-reads its list cursor after "
+             "re-locking (cursor_not_carried_across_unlock over the regenerated unlockLoops) and therefore the thread-per-connection "
+             "join loop of close_all_connections joins every connection thread exactly once under any interleaving of thread exits "
+             "(tpc_join_every_thread, with a kernel-checked witness for the carried-cursor variant). Validated dynamically, not "
+             "proved: TSan stress (client threads x select/poll/epoll x pool/thread-per-connection, add_connection from application "
+             "threads, cross-thread resume, shared callback/fd/static responses, digest auth with correct answers on a shared nonce "
+             "table, 32 client addresses for per-IP accounting, stop under load with watchdog) and deterministic scenarios (pinadd, "
+             "quietresume, stagger: all orders of three handlers finishing during MHD_stop_daemon).",
         note="Memory-order effects, libc/GnuTLS, scheduler liveness outside the model; dynamic part schedule-dependent. Known finding F18b "
              "(data race on connection->suspended in thread-per-connection mode) is reported as KNOWN-FINDING.",
         design="DESIGN.md §3 C18", technique="Lean 4 decide +kernel over a clang-AST-extracted table + abstract thread model + TSan stress with watchdog"),
@@ -197,14 +230,21 @@ CLAIMED = {
         design="DESIGN.md §3 C19", technique="Lean 4 proof + model/code correspondence + RFC 6455 reference oracle"),
     "C20": dict(
         engine="upg",
-        text="Lean 4 proofs over a model of the upgrade path (queue_response preconditions, execute_upgrade, mark_app_closed, "
-             "resume_suspended_connections, cleanup, close_all_connections) for every history and read/write schedule: byte conservation "
-             "(extra + application reads + socket = bytes after the head, for a prefix-stable parser); the daemon's wire output is exactly "
-             "the 101 head; no daemon I/O after hand-over; exactly one completed / conn-close / socket close, released in the round "
-             "after CLOSE or at stop; an unmet precondition => refusal with unchanged state, ordinary response then accepted. Tie: all "
-             "2-way splits x close timings x select/epoll x arenas, random 3-way, multi-connection, per-fd I/O interposition, log oracle.",
-        note="TLS forwarding (process_urh/GnuTLS) and thread-per-connection outside the model; parser and ordinary reply bytes are "
-             "parameters (C02/C04).",
+        text="Lean 4 proofs (39 theorems) over a model of the upgrade path (queue_response preconditions, execute_upgrade, "
+             "mark_app_closed, resume/cleanup, stop) for every split of 'request head + following bytes', close timing and mode: "
+             "lossless_handover (every byte beyond the head reaches the upgrade handler exactly once and in order), wire_is_head101 "
+             "where the 101 head is C04's reply builder applied to the application's response object "
+             "(upgrade_head_connection_tokens, head101_is_reply_builder, head101_explicit: for all response flags and all legal "
+             "header call sequences nothing is added to the head, no Keep-Alive / close token, no Content-Length / "
+             "Transfer-Encoding), no_daemon_io_after_handover, released_exactly_once_*, refused_unchanged, "
+             "unmet_precondition_refused; TLS forwarding layer (process_urh): tls_forwarding_fifo (both directions prefix-preserving "
+             "FIFOs for every interleaving of readiness and short reads/writes), tls_buffers_never_overrun, tls_no_loss_*, close "
+             "propagation, tls_released_exactly_once. Tie: all 2-way splits x close timings x modes x arenas on the real daemon with "
+             "per-fd I/O interposition; decorated-response family with an exact-head oracle; white-box engine on the real static "
+             "process_urh with interposed GnuTLS record functions (1.5k histories quick); thread pools 1-4 and thread-per-connection "
+             "x 3 close timings.",
+        note="The TLS release path after the finish test is modelled but not run on the real daemon (no TLS handshake in the "
+             "harness) - not claimed; requests with a body only with early reply; parser and ordinary reply bytes are C02/C04's.",
         design="DESIGN.md §3 C20", technique="Lean 4 proof + model/code correspondence (per-fd I/O interposition) + log oracle"),
     "C04": dict(
         engine="reply",
@@ -226,17 +266,20 @@ CLAIMED = {
         design="DESIGN.md §3 C04", technique="Lean 4 proof + regenerated constants + exhaustive/bounded/random differential + strict-parser oracle"),
     "C05": dict(
         engine="sm",
-        text="Lean 4 proof (14 theorems) over a model of the request state machine at MHD_CONNECTION_STATE granularity incl. interim "
-             "(102) replies (handler asked again after a complete 102) and upgrade responses (MHD_response_execute_upgrade_, "
-             "upgradeDone, execution failure): protocol_accepts / protocol_complete (every event list incl. timeouts, pool "
-             "exhaustion, allocation and epoll_ctl failures, stop, resume, upgrade; every application) against the call-protocol "
-             "automaton; aware_iff_open_request; closed_only_unaware; upgraded_holds_no_response; regenerated repair flags "
-             "(tree_f9_fixed, tree_other_repairs) with kernel-checked witnesses of F9/F9b/F9c/F14. Tie: placement grid 12 request "
-             "shapes x phase boundaries x 8 actions x 28 handler behaviours (19.6k cases quick) + 168 interim/upgrade scripts + "
+        text="Lean 4 proof (19 theorems) over a model of the request state machine at MHD_CONNECTION_STATE granularity incl. interim "
+             "(102) replies and upgrade responses (MHD_response_execute_upgrade_, upgradeDone, execution failure): protocol_accepts "
+             "/ protocol_complete (every event list incl. timeouts, pool exhaustion, allocation and epoll_ctl failures, stop, "
+             "resume, upgrade; every application) against the call-protocol automaton; aware_iff_open_request; closed_only_unaware; "
+             "upgraded_holds_no_response; idle_fuel_sufficient / body_fuel_sufficient (the fuel of the two model loops always "
+             "suffices: the theorems are about the unbounded while loops); upload_accounting / upload_complete_length / "
+             "early_response_discards_upload (every body byte presented exactly once and in order, only the declined suffix "
+             "re-presented; at the final call the summed offset equals Content-Length; an early-accepted response discards the "
+             "upload); regenerated repair flags with kernel-checked witnesses of F9/F9b/F9c/F14. Tie: placement grid 12 request "
+             "shapes x phase boundaries x 8 actions x 28 handler behaviours (19.6k cases quick) + interim/upgrade scripts + "
              "interim-with-pipelined-bytes scripts + random histories on the real daemon (select + epoll): exact callback sequence "
              "and white-box state / client_aware at every settled point vs the model; independent automaton oracle.",
-        note="Parsers abstracted to tokens; external select/epoll modes; upload completeness oracle-only; idle-loop fuel sufficiency "
-             "not proved; thread-per-connection shutdown and TLS upgrade forwarding not modelled.",
+        note="Parsers abstracted to tokens; external select/epoll modes; chunked-upload total by oracle only; thread-per-connection "
+             "shutdown and TLS upgrade forwarding not modelled.",
         design="DESIGN.md §3 C05", technique="Lean 4 refinement proof + predictive correspondence + independent automaton oracle"),
     "C06": dict(
         engine="loop",
@@ -274,15 +317,17 @@ CLAIMED = {
         design="DESIGN.md §3 C07", technique="Lean 4 proof (invariant over fault scripts + progress measure) + fault enumeration as validation"),
     "C15": dict(
         engine="pp",
-        text="Lean 4 proof (8 theorems): urlencoded: url_roundtrip(_tokens), url_every_call_accepts, url_split_independent, "
+        text="Lean 4 proof (9 theorems): urlencoded: url_roundtrip(_tokens), url_every_call_accepts, url_split_independent, "
              "url_no_fault for every field list, every split and every buffer size >= 256; multipart: multipart_all_inputs (all "
-             "inputs and splits: no fault, loop termination, every delivered byte is a byte of the input), multipart_roundtrip "
-             "(single level: for every buffer size, boundary, part list with arbitrary binary values incl. boundary look-alikes, and "
-             "EVERY chunk list whose concatenation is the encoding: all calls accept and the delivered (key, filename, content type, "
-             "transfer encoding, value pieces with contiguous offsets) equal the fields), multipart_split_independent. Not proved: "
-             "nested multipart/mixed round trip; a syntactic sufficient condition for the header-parse clause of PartOk. Tie: all "
-             "2/3-way splits of small bodies, byte-by-byte, random, malformed, look-alike x border splits and line-fill cases at "
-             "buffer sizes 256/257/300 against the real MHD_post_process.",
+             "inputs and splits: no fault, loop termination, every delivered byte is a byte of the input), multipart_roundtrip and "
+             "multipart_nested_roundtrip (form fields and nested multipart/mixed containers, header lines in any spelling the line "
+             "parser reads back: for every buffer size, boundary, item list with arbitrary binary values incl. boundary look-alikes, "
+             "and EVERY chunk list whose concatenation is the encoding: all calls accept and the delivered (key, filename, content "
+             "type, transfer encoding, value pieces with contiguous offsets) equal the fields, fields after a container under their "
+             "own metadata), multipart_split_independent. Not proved: a syntactic sufficient condition for the header-parse clause "
+             "of ItemOk; a preamble before the first delimiter. Tie: all 2/3-way splits of small bodies, byte-by-byte, random, "
+             "malformed, look-alike x border splits and line-fill cases at buffer sizes 256/257/300, header-quirk parts, nested "
+             "bodies against the real MHD_post_process.",
         note="Multipart round trip and multipart loop termination not proved (stated in Props/C15.lean).",
         design="DESIGN.md §3 C15", technique="Lean 4 proof + translator for constants + bounded-exhaustive/random correspondence"),
     "C08": dict(
